@@ -17,6 +17,7 @@ inductive XOp
   | op (o : Op)
   | cut (n : Nat)
   | bop (o : BOp)
+  | probe
 
 def parseMode? : String → Option Mode
   | "r" => some .r | "a" => some .a | "w" => some .w | "x" => some .x | _ => none
@@ -46,6 +47,8 @@ def parseOp (s : String) : Option XOp :=
   | ["cget", c, k] => do pure (.bop (.get (← c.toNat?) (← bytesOfHex? k)))
   | ["ckeys", c] => do pure (.bop (.keys (← c.toNat?)))
   | ["cflush", c] => do pure (.bop (.flush (← c.toNat?)))
+  | ["endfault", c] => do pure (.bop (.endFault (← c.toNat?)))
+  | ["probe"] => some .probe
   | _ => none
 
 def errName : Err → String
@@ -80,6 +83,11 @@ def xstep (bw : BWorld) : XOp → BWorld × String
   | .op o => let (w', out) := step bw.w o; ({ bw with w := w' }, showOut out)
   | .cut n => ({ w := { file := bw.w.file.map (·.take n), hs := fun _ => none }, bs := fun _ => none }, "ok")
   | .bop o => let (bw', out) := bstep bw o; (bw', showBOut out)
+  | .probe =>
+    -- what a second process sees: the complete records of the file
+    let kvs := match bw.w.file with | some f => absFile f | none => []
+    let sorted := kvs.mergeSort (fun a b => !bytesLt b.key a.key)
+    (bw, "lib:" ++ ",".intercalate (sorted.map (fun kv => hexTok kv.key ++ "=" ++ hexTok kv.val)))
 
 def handle (payload : String) : String :=
   let opsS := (payload.splitOn ";").filter (fun s => (words s) ≠ [])
